@@ -31,7 +31,8 @@ def exhaustive(tier):
 
 def required(tier):
     return {"pairs_convertible": 1000, "pairs_refused": 10000, "predicate_evals": 5000,
-            "listing_checked": 300, "cache_entries_audited": 300, "gen_registries": 10}
+            "listing_checked": 300, "cache_entries_audited": 300, "gen_registries": 10,
+            "adjacent_exponent_twins": 1000}
 
 
 def shards(tier, seed):
@@ -266,6 +267,26 @@ def run_shard(spec, rec):
             if rng.random() < 0.2 and dyadic:
                 dim_predicates(A, tuple(sorted(da.items())), tuple(sorted(db.items())), kind)
             made.append((a, b, same))
+            # adjacent-exponent twins asked right after a successful conversion: the same unit names with
+            # one exponent moved by one (-1 -> -2 in particular: hash(-1) == hash(-2) in CPython) must be
+            # refused even though a look-alike pair has just been converted (memo keyed too coarsely)
+            if same and oc == "ok" and rng.random() < 0.5:
+                for which in ("dst", "src"):
+                    tgt = dict(b if which == "dst" else a)
+                    if not tgt:
+                        continue
+                    cand = [u for u, e in tgt.items() if e == -1] or list(tgt)
+                    u0 = rng.choice(cand)
+                    tgt[u0] = tgt[u0] - 1
+                    tgt = {u: e for u, e in tgt.items() if e != 0}
+                    if not tgt:
+                        continue
+                    A2, B2 = (a, tgt) if which == "dst" else (tgt, b)
+                    same2 = m.dimvec(A2) == m.dimvec(B2)
+                    if form < 0.5:
+                        A2, B2 = gen.render_units(A2), gen.render_units(B2)
+                    rec.count("adjacent_exponent_twins")
+                    judge(A2, B2, same2, kind + "-twin")
             if i % 500 == 0:
                 rec.sample({"a": gen.render_units(a), "b": gen.render_units(b), "same": same})
             # closure under product / quotient / power on two recorded compatible pairs
